@@ -2,7 +2,7 @@
    Abstract-syntax level: the term the model of _get_mave_nt chooses, and - per metadata row - the terms whose printings the
    model of the to_csv loop body writes to mave_nt (widened to a PAM codon or not) and mave_nt_ref; the printing itself is tied
    to the code by the correspondence and decoded by an independent parser in the check (partial for the string level). *)
-From VV Require Import Model.Base Model.Pattern Model.Seq Model.Vcf Model.Mave Model.Gpo Model.ToCsv Model.PyStr Spec.MaveSpec Proofs.MaveProofs Proofs.MaveRowProofs Generated.KernelsMave Proofs.KernelMaveEquiv.
+From VV Require Import Model.Base Model.Pattern Model.Seq Model.Vcf Model.Mave Model.Gpo Model.ToCsv Model.PyStr Spec.MaveSpec Proofs.MaveProofs Proofs.MaveRowProofs Generated.KernelsMave Proofs.KernelMaveEquiv Proofs.MaveBgProofs.
 
 (* for substitutions, deletions, insertions and deletion-insertions of any length at any offset: the variant the code
    prints, applied to a sequence carrying REF at that offset, yields the sequence with REF replaced by ALT; where a
@@ -76,9 +76,27 @@ Example C10_examples :
   get_mave_nt 90 90 VIns [] (d "T") = Ok "g.0_1insT"%string.
 Proof. vm_compute. repeat split; reflexivity. Qed.
 
+(* the same row under background variants, when it is not widened to a PAM codon: the printed term carries the REF-coordinate offset of the
+   mutation (C06: reported offsets are in the original reference), and the same term at the offset of the mutation in the background
+   sequence turns the PAM-protected background sequence into the row's oligonucleotide *)
+Theorem C10_row_mave_nt_decodes_under_background : forall c mr o xa (T : dna),
+  row_out c mr = Ok o ->
+  p_seq (cx_alt c) = mkSeq xa T ->
+  mr_start_exon mr = None -> mr_end_exon mr = None ->
+  mr_end mr = get_end (mr_alt_pos mr) (zlen (mr_ref mr)) ->
+  s_start (p_seq (cx_seq c)) <= mr_ref_pos mr ->
+  let a := mr_alt_pos mr - xa in
+  0 <= a -> a + zlen (mr_ref mr) <= zlen T ->
+  mr_oligo mr = zfirstn a T ++ mr_alt mr ++ zskipn (a + zlen (mr_ref mr)) T ->
+  exists m, o_mave_nt o = print_mave m /\ mave_valid m = true /\
+            mave_pos m = mr_ref_pos mr - s_start (p_seq (cx_seq c)) + 1 /\
+            mave_apply (mave_at m (a + 1)) T = Some (mr_oligo mr).
+Proof. exact row_mave_nt_decodes_bg. Qed.
+
 Print Assumptions C10_mave_of_apply.
 Print Assumptions C10_ins_flanks.
 Print Assumptions C10_row_mave_nt_decodes.
 Print Assumptions C10_widening_same_edit.
 Print Assumptions C10_row_mave_nt_ref_decodes.
 Print Assumptions C10_mave_strings_match_source.
+Print Assumptions C10_row_mave_nt_decodes_under_background.
